@@ -60,7 +60,8 @@ def mk_pred(spec):
 
 
 def _isnan(v):
-    return isinstance(v, float) and v != v
+    import numpy as np
+    return isinstance(v, (float, np.floating)) and bool(v != v)
 
 
 def match(v, cond):
@@ -78,6 +79,19 @@ def run_case(case, ctx):
     from pyg_base import dictable
     sess = codec._Session()
     cols = {c: codec.dec(v, sess) for c, v in case['cols'].items()}
+    n32 = {}
+    if case.get('nan32'):
+        # the NaNs as single-precision numpy scalars (cells read from a float32 array): one float32 object per NaN object, so what is shared stays shared
+        import numpy as np
+
+        def to32(v):
+            if isinstance(v, list):
+                return [to32(x) for x in v]
+            if isinstance(v, float) and v != v:
+                return n32.setdefault(id(v), np.float32('nan'))
+            return v
+        cols = {c: to32(v) for c, v in cols.items()}
+        ctx.cls('nan_cells_and_conditions_as_float32')
     n = len(cols['id'])
     d = dictable(cols) if n else dictable([], list(cols))
     rows = [dict(r) for r in d]
@@ -90,6 +104,8 @@ def run_case(case, ctx):
         sel = [bool(mf(r)) for r in rows]
     else:
         conds = {c: codec.dec(v, sess) for c, v in cond['kw'].items()}
+        if case.get('nan32'):
+            conds = {c: to32(v) for c, v in conds.items()}
         if cond.get('as') == 'dict':
             args, kw = (dict(conds),), {}
         elif cond.get('as') in ('Dict', 'dictattr'):
@@ -300,6 +316,8 @@ def gen_case(rng):
     case = {'cols': cols, 'cond': cond}
     if rng.random() < 0.6:
         case['find'] = rng.choice(names + ['id'])
+    if 'nan' in repr(case) and rng.random() < 0.15:
+        case['nan32'] = True
     return case
 
 
